@@ -248,7 +248,7 @@ def exec (P : Prog) : Nat → Stmt → St → Frame → Out
         match σ.events[mk.idx]? with
         | some (.open _ id false) =>
           if id = mk.id then
-            let σ' := { σ with events := setNth σ.events mk.idx (.open k id true) ++ [.close] }
+            let σ' := { σ with events := setNth σ.events mk.idx (.open k id true) ++ [.close], la := 0 }
             let fr' := setMark fr m none
             match dst with
             | none => .norm σ' fr'
